@@ -36,10 +36,13 @@ def shrink(chk: Any, spec: Dict[str, Any], uid: int, kind: str, timeout: float, 
 
     cur = dict(spec)
     ops = list(cur["ops"])
-    # everything after the target operation is irrelevant
+    # everything after the target operation is irrelevant (operations are parsed one at a time, so
+    # the cut changes nothing before it); verified all the same
     tpos = [i for i, o in enumerate(ops) if o.get("uid") == uid][0]
-    ops = ops[: tpos + 1]
-    cur = with_ops(cur, ops)
+    cut = with_ops(cur, ops[: tpos + 1])
+    if tpos + 1 < len(ops) and not pred(cut):
+        return cur
+    cur = cut
 
     # ddmin over the operations before the target
     n = 2
